@@ -25,6 +25,8 @@ func runC20(w *core.World, r *core.Report) {
 	r.Rule("R4", "blocked stays blocked: TERMINATE test between run and setCode; gate in Run; who may clear TERMINATE")
 	r.Rule("R6", "Finish saves whenever the engine was initialised and has a persister: every success return passes Persister.Save, the initd==false edge or the no-persister edge")
 	r.Rule("R5", "the reset path keeps client flags")
+	r.Rule("R10", "a matched INCMP clears READIN before it moves (a later dead end then terminates instead of going to the catch node)")
+	r.Rule("R9", "engine.Loop finishes (saves) the engine on every exit (C17 R8): an end inside the loop is stored")
 	r.Rule("R8", "Finish saves only an initialised engine (C17 R5): what the pre-VM hook's clean-up did to a blocked session's flags is never stored")
 	r.Rule("R7", "the last loaded value is not consumed before the engine takes it as the exit value")
 
@@ -36,6 +38,8 @@ func runC20(w *core.World, r *core.Report) {
 	}
 	checkExitValueNotConsumedEarlier(w, r, "R7")
 	checkFinishSavesOnlyInitialised(w, r, "R8")
+	checkLoopAlwaysFinishes(w, r, "R9")
+	checkMatchClearsReadin(w, r, "R10")
 	run := anchor(w, r, "vm", "(*Vm).Run")
 	roles := resolveEngineRoles(w)
 	labels := roleLabels(w, r)
@@ -106,7 +110,7 @@ func runC20(w *core.World, r *core.Report) {
 							for _, s := range core.Sources(x0) {
 								if lc, ok := s.(*ssa.Call); ok && core.IsCallTo(lc, "builtin.len") {
 									switch op0 {
-									case token.EQL:
+									case token.EQL, token.LEQ:
 										noCode = append(noCode, core.EdgesWhere(bo, true)...)
 									case token.GTR, token.NEQ:
 										noCode = append(noCode, core.EdgesWhere(bo, false)...)
@@ -187,14 +191,15 @@ func runC20(w *core.World, r *core.Report) {
 			for _, bb := range in.Blocks {
 				for _, x := range bb.Instrs {
 					if bo, isBo := x.(*ssa.BinOp); isBo {
-						if x0, op0, k, isC := core.CmpConst(bo); isC && k == 0 {
+						if x0, op0, k, isC := core.CmpConst(bo); isC && (k == 0 || k == 1) {
 							for _, s := range core.Sources(x0) {
 								if lc, isL := s.(*ssa.Call); isL && core.IsCallTo(lc, "builtin.len") {
 									if _, f, isF := core.LoadedField(lc.Call.Args[0]); isF && f == "Code" {
-										switch op0 {
-										case token.EQL:
+										// a length is zero exactly when: == 0, <= 0, < 1 hold; != 0, > 0, >= 1 fail
+										switch {
+										case k == 0 && (op0 == token.EQL || op0 == token.LEQ), k == 1 && op0 == token.LSS:
 											noCode = append(noCode, core.EdgesWhere(bo, true)...)
-										case token.GTR, token.NEQ:
+										case k == 0 && (op0 == token.GTR || op0 == token.NEQ), k == 1 && op0 == token.GEQ:
 											noCode = append(noCode, core.EdgesWhere(bo, false)...)
 										}
 									}
